@@ -24,8 +24,10 @@ def items(tier: str) -> List[str]:
         out.extend(raw.programs(5, 2, raw.PLAIN_SMALL))
         out.extend(raw.programs(3, 2, multi=True))
         out.extend(raw.dead_code())
+        out.extend(raw.sub_bodies(5))
     else:
         out.extend(raw.dead_code())
+        out.extend(raw.sub_bodies(7))
         out.extend(raw.space(5, 2))
         out.extend(raw.programs(6, 2, raw.PLAIN_SMALL))
         out.extend(raw.space(4, 3))
